@@ -21,6 +21,7 @@ verus! {
 
 
 //@include env/tour_stubs.vs
+//@include-trusted env/path_fns.vs
 //@include env/tour_pos_fns.vs
 } // verus!
 fn main() {}
